@@ -34,23 +34,41 @@ package hash
 //@   modifies nothing
 
 // Remove: one step per replica index: a position is cut out of `keys` only if it is exactly the node's own
-// virtual-node hash; nothing else in `keys` moves. Unknown nodes leave the ring untouched.
+// virtual-node hash AND the ring holds this node there (a weighted node occupies only its first positions; the
+// label of a position it never occupied may be another node's - "node1"+"10" is "node11"+"0" - and removing a node
+// changes only the assignment of keys that were assigned to IT); nothing else in `keys` moves. Unknown nodes
+// leave the ring untouched.
 //@ func (*ConsistentHash).Remove
 //@   prop C13
-//@   opaque repr, removeRingNode, Itoa
+//@   opaque repr, removeRingNode, Itoa, ringHolds
 //@   requires h != nil && h.replicas >= 0
+//@   replay hash_remove_alias
 //@   let hv = ret(h.hashFunc)
 //@   let sx = ret(sort.Search)
+//@   let mine = ret(h.ringHolds)
 //@   loop 1 entry [starts-at-zero] i == 0
 //@   loop 1 invariant 0 <= i && i <= h.replicas
-//@   loop 1 iteration-ensures [only-own-positions] len(h.keys) == at_head(len(h.keys)) || (len(h.keys) == at_head(len(h.keys)) - 1 && sx < at_head(len(h.keys)) && at_head(h.keys[sx]) == hv)
-//@   loop 1 iteration-ensures [own-position-always-cut] sx < at_head(len(h.keys)) && at_head(h.keys[sx]) == hv ==> len(h.keys) == at_head(len(h.keys)) - 1
-//@   loop 1 iteration-ensures [prefix-kept] forall(j, 0, sx, j < len(h.keys) ==> h.keys[j] == at_head(h.keys[j]))
+//@   loop 1 iteration-ensures [asked-for-this-position-and-node] calls(h.ringHolds, hv, nodeRepr) == 1
+//@   loop 1 iteration-ensures [positions-of-other-nodes-untouched] !mine ==> len(h.keys) == at_head(len(h.keys)) && calls(removeRingNode) == 0 && forall(j, 0, len(h.keys), h.keys[j] == at_head(h.keys[j]))
+//@   loop 1 iteration-ensures [only-own-positions] len(h.keys) == at_head(len(h.keys)) || (len(h.keys) == at_head(len(h.keys)) - 1 && mine && sx < at_head(len(h.keys)) && at_head(h.keys[sx]) == hv)
+//@   loop 1 iteration-ensures [own-position-always-cut] mine && sx < at_head(len(h.keys)) && at_head(h.keys[sx]) == hv ==> len(h.keys) == at_head(len(h.keys)) - 1
+//@   loop 1 iteration-ensures [prefix-kept] mine ==> forall(j, 0, sx, j < len(h.keys) ==> h.keys[j] == at_head(h.keys[j]))
 //@   loop 1 iteration-ensures [suffix-shifted] len(h.keys) == at_head(len(h.keys)) - 1 ==> forall(j, sx, len(h.keys), h.keys[j] == at_head(h.keys[j + 1]))
-//@   loop 1 iteration-ensures [ring-entry] calls(h.removeRingNode, hv, nodeRepr) == 1
+//@   loop 1 iteration-ensures [ring-entry] mine ==> calls(h.removeRingNode, hv, nodeRepr) == 1
 //@   loop 1 iteration-ensures [next] i == at_head(i) + 1
 //@   ensures [unknown-node-untouched] !old(has(h.nodes, ret(repr))) ==> len(h.keys) == old(len(h.keys)) && calls(removeRingNode) == 0 && calls(hashFunc) == 0
 //@   ensures [forgets-node] old(has(h.nodes, ret(repr))) ==> !has(h.nodes, ret(repr))
+
+// ringHolds: whether the ring slot of that hash lists a node of that representation.
+//@ func (*ConsistentHash).ringHolds
+//@   prop C13
+//@   opaque repr
+//@   requires h != nil
+//@   loop 1 invariant -1 <= rangeindex
+//@   loop 1 iteration-ensures [every-occupant-compared] calls(repr, at_head(h.ring[hash][rangeindex + 1])) == 1 && ret(repr) != nodeRepr
+//@   ensures [found-means-listed] result ==> tail(calls(repr) == 1 && ret(repr) == nodeRepr)
+//@   ensures [empty-slot] len(h.ring[hash]) == 0 ==> !result
+//@   modifies nothing
 
 // removeRingNode: keeps exactly the nodes whose representation differs, in order.
 //@ func (*ConsistentHash).removeRingNode
